@@ -206,10 +206,21 @@ pub unsafe fn crashed() -> bool {
     K.crash_at >= 0 && K.syscalls > K.crash_at
 }
 
+/// descriptor numbers 0..2 are never handed out by the bump allocator; a harness can ask for the
+/// next descriptor to get one of them (a process whose stdin is closed: "lowest free" is 0)
+pub static mut FORCE_NEXT_FD: i32 = -1;
 unsafe fn new_fd(obj: i16, cloexec: bool) -> c_int {
     kani::assume(K.nextfd < NFD); // model capacity (stated bound)
-    let fd = K.nextfd;
-    K.nextfd += 1;
+    let fd = if FORCE_NEXT_FD >= 0 {
+        let f = FORCE_NEXT_FD as usize;
+        FORCE_NEXT_FD = -1;
+        assert!(f < FD0 && K.fd_obj[f] < 0); // only the reserved low numbers, each at most once
+        f
+    } else {
+        let f = K.nextfd;
+        K.nextfd += 1;
+        f
+    };
     K.fd_obj[fd] = obj;
     kani::assume(K.nofd[obj as usize] < OFD); // model capacity
     K.ofd[obj as usize][K.nofd[obj as usize]] = fd as i16;
@@ -1074,9 +1085,9 @@ pub fn link() {
 
 pub unsafe fn open_fds() -> usize {
     let mut n = 0;
-    let mut f = FD0;
+    let mut f = 0;
     while f < K.nextfd {
-        if !K.fd_closed[f] {
+        if K.fd_obj[f] >= 0 && !K.fd_closed[f] {
             n += 1;
         }
         f += 1;
@@ -1124,6 +1135,9 @@ pub fn set_fail_fd_at(i: i32) {
 }
 pub fn set_block_is_violation(b: bool) {
     unsafe { K.block_mode = if b { BLOCK_FLAG } else { BLOCK_ASSUME } }
+}
+pub fn next_fd_is(n: c_int) {
+    unsafe { FORCE_NEXT_FD = n }
 }
 pub fn set_cur(p: u8) {
     unsafe { CUR = p }
